@@ -155,6 +155,21 @@ def richardson(f, r, room=None):
     return ans
 
 
+def eval_noise(f, r, k=4):
+    """spread of f over the 2k doubles nearest to r: the writer computes its abscissa with its own rounding (a few ulps from the exact grid point),
+    and an ill-conditioned callable (exp-spline: exponent = sum of large cancelling terms) changes by far more than slope*ulp between neighbouring doubles"""
+    v0 = f(r)
+    lo = hi = r
+    m = 0.0
+    for _ in range(k):
+        lo, hi = math.nextafter(lo, -math.inf), math.nextafter(hi, math.inf)
+        try:
+            m = max(m, abs(f(lo) - v0), abs(f(hi) - v0))
+        except (OverflowError, ZeroDivisionError, ValueError):
+            pass
+    return m
+
+
 def real_potential(rng):
     """(description, callable, reference derivative) - built-in forms, compositions and derivative-less callables"""
     import atsim.potentials as ap
